@@ -198,6 +198,59 @@ impl C03 {
     }
 }
 
+impl C03 {
+    /// associativity and interchange through the lax representation: operands carry pending
+    /// (label-consistent) unifications, the tensor is taken with the pure or the in-place variant;
+    /// both sides are strictified by the library and compared up to isomorphism
+    fn lax_laws(&self, ctx: &mut Ctx, r: &mut Rng) {
+        use crate::gen::PL;
+        use open_hypergraphs::lax;
+        type L = lax::OpenHypergraph<u32, u64>;
+        let pa = OhParams { max_nodes: 5, max_edges: 3, max_arity: 3, max_iface: 3, node_labels: 2, edge_labels: 3 };
+        let (mut f, mut g) = gen::composable_pair(r, &pa);
+        let (mut h, mut k) = gen::composable_pair(r, &pa);
+        unique(r, &mut [&mut f, &mut g, &mut h, &mut k]);
+        let pend = |p: &P, r: &mut Rng| -> PL {
+            let mut l = p.to_lax();
+            let n = l.w.len();
+            if n > 0 {
+                for _ in 0..r.small(2) {
+                    let a = r.below(n);
+                    let c: Vec<usize> = (0..n).filter(|&i| l.w[i] == l.w[a]).collect();
+                    l.q.push((a, *r.pick(&c)));
+                }
+            }
+            l
+        };
+        let (pf, pg, ph, pk) = (pend(&f, r), pend(&g, r), pend(&h, r), pend(&k, r));
+        let input = || json!({"f": show_lax(&pf), "g": show_lax(&pg), "h": show_lax(&ph), "k": show_lax(&pk)});
+        if nontrivial_instance(&[&f, &g, &h, &k]) {
+            ctx.nontrivial(&("lax-laws", &pf, &pg, &ph, &pk));
+        }
+        let (xf, xg, xh, xk): (L, L, L, L) = (to_lax(&pf), to_lax(&pg), to_lax(&ph), to_lax(&pk));
+        let inplace = r.chance(1, 2);
+        ctx.count(if inplace { "via:lax_tensor_assign" } else { "via:lax_tensor" });
+        let ten = |a: &L, b: &L| -> L {
+            if inplace {
+                let mut x = a.clone();
+                x.tensor_assign(b.clone());
+                x
+            } else {
+                a.tensor(b)
+            }
+        };
+        // interchange: (f;g)|(h;k) = (f|h);(g|k)
+        let lhs = lib(ctx, "lax::compose+tensor", "lax", &input, || Some(ten(&Arrow::compose(&xf, &xg)?, &Arrow::compose(&xh, &xk)?).to_strict())).flatten();
+        let rhs = lib(ctx, "lax::compose+tensor", "lax", &input, || Arrow::compose(&ten(&xf, &xh), &ten(&xg, &xk)).map(|x| x.to_strict())).flatten();
+        law(ctx, "lax-interchange", "lax", lhs, rhs, &input);
+        // associativity of tensor and of composition, right- vs left-nested
+        let lhs = lib(ctx, "lax::tensor", "lax", &input, || ten(&ten(&xf, &xg), &xh).to_strict());
+        let rhs = lib(ctx, "lax::tensor", "lax", &input, || ten(&xf, &ten(&xg, &xh)).to_strict());
+        law(ctx, "lax-tensor-associativity", "lax", lhs, rhs, &input);
+        ctx.sample("lax_laws", || input());
+    }
+}
+
 impl Monitor for C03 {
     fn id(&self) -> &'static str {
         "C03"
@@ -233,6 +286,8 @@ impl Monitor for C03 {
             ("class:edge_with_two_distinct_sources", 50),
             ("via:operator_sugar", 200),
             ("via:methods", 200),
+            ("law:lax-interchange", 100),
+            ("via:lax_tensor_assign", 50),
         ]
     }
     fn run_case(&self, idx: u64, r: &mut Rng, ctx: &mut Ctx) {
@@ -242,7 +297,8 @@ impl Monitor for C03 {
             2 => self.twist_laws(ctx, r, Some((vec![0, 1], vec![], vec![]))),
             3 => self.twist_laws(ctx, r, Some((vec![0, 0, 1], vec![1, 0], vec![0, 1]))),
             4 => self.twist_laws(ctx, r, Some((vec![1], vec![1], vec![1]))),
-            _ => match r.below(6) {
+            _ => match r.below(7) {
+                6 => self.lax_laws(ctx, r),
                 0 => self.associativity(ctx, r),
                 1 => self.identity(ctx, r),
                 2 => self.interchange(ctx, r),
